@@ -119,9 +119,37 @@ class FileBus:
         return P()
 
 
+def sqlite_bus(path, killer):
+    """the REAL SQLite producer plugin as message bus (what it has committed is what survives the
+    death of the process); a kill point follows every completed send"""
+    import importlib
+    prod_mod = importlib.import_module("plugins.messagebus_producers.sqlite.sqlite")
+    plug = prod_mod.SqliteProducerPlugin({"uri": path, "retention_in_days": 30})
+    if killer is not None:
+        inner = plug._send
+
+        def _send(event):
+            inner(event)
+            killer.tick(f"send {event.eventtype} {event.objtype} {event.objpkey}")
+        plug._send = _send
+    return plug
+
+
 def read_bus(path):
     from lib.datamodel.event import Event
     out = []
+    if path.endswith(".jsonl") and not os.path.exists(path) and os.path.exists(path[:-6] + ".sqlite"):
+        import sqlite3
+        db = sqlite3.connect(path[:-6] + ".sqlite")
+        try:
+            rows = db.execute("SELECT data FROM hermesmessages ORDER BY msgid").fetchall()
+        except sqlite3.Error:
+            rows = []
+        db.close()
+        for (data,) in rows:
+            ev = Event.from_json(data)
+            out.append((ev.evcategory, ev.eventtype, ev.objtype, ev.objpkey, ev.objattrs))
+        return out
     if os.path.exists(path):
         for line in open(path):
             if line.strip():
@@ -137,7 +165,10 @@ def start(wd, case, world, killer):
     H.setup_logger("hermes-server")
     for s in c["hermes"]["plugins"]["datasources"]:
         c["hermes"]["plugins"]["datasources"][s]["plugininstance"] = H.MemDS(s, world)
-    c["hermes"]["plugins"]["messagebus"]["plugininstance"] = FileBus(wd + "/bus.jsonl", killer).make()
+    if case.get("bus") == "sqlite":
+        c["hermes"]["plugins"]["messagebus"]["plugininstance"] = sqlite_bus(wd + "/bus.sqlite", killer)
+    else:
+        c["hermes"]["plugins"]["messagebus"]["plugininstance"] = FileBus(wd + "/bus.jsonl", killer).make()
     c["hermes"]["plugins"]["attributes"]["_jinjafilters"] = {}
     from server.hermesserver import HermesServer
     return HermesServer(c)
@@ -198,7 +229,9 @@ def gen_case(rng):
     c = b2 if c_same else srvcase.gen_rows(rng, cfg, pool, b2)
     tb = lambda t: srvcase.to_remote_tables(cfg, t)
     return {"cfg": cfg, "A": tb(a), "B": tb(b), "B2": tb(b2), "C": tb(c), "c_same": c_same,
-            "cache": {"enable_compression": rng.random() < 0.3, "backup_count": rng.choice([0, 0, 2])}}
+            "cache": {"enable_compression": rng.random() < 0.3, "backup_count": rng.choice([0, 0, 2])},
+            # a third of the cases publish through the real SQLite producer plugin
+            "bus": "sqlite" if random.Random(rng.randrange(1 << 30)).random() < 0.34 else "file"}
 
 
 def load_caches(wd, case):
